@@ -444,7 +444,8 @@ func healthScenario(s *verifsim.Sim) {
 	w := &hWorld{s: s, deaths: map[string]int{}, inflight: map[int]int{}, overlap: map[int]bool{}}
 	logger := logrus.New()
 	logger.SetOutput(io.Discard)
-	logger.SetLevel(logrus.PanicLevel)
+	// production logs at info level; code guarded by IsLevelEnabled runs only then
+	logger.SetLevel([]logrus.Level{logrus.PanicLevel, logrus.InfoLevel, logrus.InfoLevel, logrus.TraceLevel}[s.T.Choose(4)])
 	keys := componentdialer.StandardHealthKeys()
 	for i, k := range keys {
 		w.types[i] = k.NetworkType()
@@ -918,6 +919,11 @@ func healthScenario(s *verifsim.Sim) {
 	done := 0
 	total := nNot + nSel
 	busy, epoch := 0, 0
+	duel := T.Chance(1, 4)
+	duelNode, duelTyp := T.Choose(nNodes), T.Choose(6)
+	if duel {
+		s.Probe("health.revival-death-duel")
+	}
 	quietNow := func() bool {
 		if busy != 0 {
 			return false
@@ -959,6 +965,23 @@ func healthScenario(s *verifsim.Sim) {
 				}
 			}
 			evs = append(evs, e)
+		}
+		if duel && k < 2 {
+			// a revival and a death of the same node and type racing each other from a
+			// state in which the type has no alive node at all: the group's alive
+			// callback of the one runs while the other one reports
+			var pre []ev
+			if k == 0 {
+				for ni := range w.nodes {
+					pre = append(pre, ev{kind: eForced, node: ni, typ: duelTyp})
+				}
+				pre = append(pre, ev{kind: eTrafficOK, node: duelNode, typ: duelTyp})
+			} else {
+				for i := 0; i < 3; i++ {
+					pre = append(pre, ev{kind: eForced, node: duelNode, typ: duelTyp})
+				}
+			}
+			evs = append(pre, evs...)
 		}
 		verifsim.Go(fmt.Sprintf("notifier%d", k), func() {
 			defer func() { done++ }()
